@@ -475,8 +475,25 @@ func VerifyCaptcha(secretHex, token string, now int64) bool {
 	return time.Duration(now-ts) <= 5*time.Minute
 }
 
+var tokenRe = regexp.MustCompile(`[A-Za-z0-9+/=]{4,}\.[A-Za-z0-9+/=]{4,}\.[A-Za-z0-9+/=]{4,}`)
+
+// trackCaptcha remembers when a session last presented a token that VerifyCaptcha accepts.
+func (m *Monitors) trackCaptcha(st *Step) {
+	e := &st.Entry
+	if e.Type != int64(robust.IRCFromClient) || e.Session == 0 || !strings.Contains(e.Data, ".") {
+		return
+	}
+	for _, tok := range tokenRe.FindAllString(e.Data, -1) {
+		if VerifyCaptcha(m.credentials(st.Before).CaptchaHMACSecret, tok, e.UnixNano) {
+			m.solved[verifview.Id{Id: e.Session}] = e.UnixNano
+			m.Stats["c13.captchas-accepted-by-the-monitor"]++
+		}
+	}
+}
+
 func (m *Monitors) c13(st *Step) []Finding {
 	var fs []Finding
+	m.trackCaptcha(st)
 	B, Af := st.Before, st.After
 	A := actorOf(st)
 	e := &st.Entry
@@ -924,8 +941,10 @@ func (m *Monitors) joinEntitled(st *Step, A *verifview.Session, c *verifview.Cha
 		return "invite-only"
 	}
 	if c.HasMode('x') && !invited {
-		grace := time.Duration(e.UnixNano-A.LastSolvedCaptcha.UnixNano) < time.Minute && !A.LastSolvedCaptcha.IsZero
-		ok := grace
+		// the one-minute grace starts when the session presented a captcha that this monitor's
+		// own verifier accepts (not when the state says so)
+		solvedAt, solved := m.solved[A.Id]
+		ok := solved && time.Duration(e.UnixNano-solvedAt) < time.Minute && e.UnixNano >= solvedAt
 		// a captcha solved for an earlier channel of the same JOIN line opens the one-minute grace
 		for _, k := range keys {
 			if VerifyCaptcha(st.Before.Config.CaptchaHMACSecret, k, e.UnixNano) {
